@@ -335,6 +335,20 @@ def r11_6(ctx, fx):
                     why = "state stored: %s" % sorted(sh)
             ctx.ob("R11.6", "on_connection_closed/kept-peer#%d-is-ValidationPending{Closed}" % i, ok, site=fn.site(c.node), cfg=fx.cfg,
                    detail="after the connection is gone the only thing remembered is a pending validation with connectivity Closed; " + why)
+        # a pending validation survives the disconnect whatever the recorded connectivity was
+        for sw, e in matched_edges(fn, "ValidationPending", moved_only=True):
+            if set(e) & set(fn.variant_edges(sw, "Open")):
+                continue
+            starts = [n for n, l in fn.succs(sw[0]) if l in e]
+            p = fn.witness_path(starts, [x for x, _ in fn.exits()], avoid=[c.node for c in ins])
+            ctx.ob("R11.6", "on_connection_closed/ValidationPending=>kept-across-the-disconnect", p is None, site=fn.site(sw[0]), cfg=fx.cfg,
+                   detail="a path on which an unanswered validation is forgotten (a late answer would then apply to a different substream): %s" % (fn.path_sites(p) if p else None))
+        # and so does Validating{outbound: Closed, inbound: Validating}: the first insert is reachable from the Validating edge
+        for sw, e in matched_edges(fn, "Validating", moved_only=True):
+            if set(e) & set(fn.variant_edges(sw, "Open")):
+                continue
+            r = fn.reach([n for n, l in fn.succs(sw[0]) if l in e])
+            ctx.ob("R11.6", "on_connection_closed/inbound-under-validation=>becomes-ValidationPending", any(c.node in r for c in ins), site=fn.site(sw[0]), cfg=fx.cfg)
     fn = ctx.fn(fx, NP + "on_connection_established::{closure#0}", "R11.6")
     if fn is not None:
         for sw, e in matched_edges(fn, "ValidationPending", moved_only=True):
